@@ -39,7 +39,7 @@ NAMES = ["A", "B", "C", "D", "E"]
 
 # ----------------------------------------------------------------------------- do()
 def gen_do(rng, tier):
-    case = gen.rand_bn(rng, nmin=2, nmax=5, maxcard=3, name_kind=rng.choice(["str", "word", "int"]), mincard=2)
+    case = gen.rand_bn(rng, nmin=2, nmax=5, maxcard=3, name_kind=rng.choice(["str", "word", "int", "int0"]), mincard=2)
     n = len(case["nodes"])
     case["do"] = rng.sample(range(n), rng.randint(1, min(2, n)))
     case["inplace"] = rng.random() < .4
@@ -76,7 +76,7 @@ def run_do(case, drv):
 # ----------------------------------------------------------------------------- queries
 def gen_query(rng, tier):
     for _ in range(30):
-        case = gen.rand_bn(rng, nmin=2, nmax=5, maxcard=3, name_kind="str", mincard=2, label_kind=rng.choice(["int", "str"]),
+        case = gen.rand_bn(rng, nmin=2, nmax=5, maxcard=3, name_kind=rng.choice(["str", "str", "int0"]), mincard=2, label_kind=rng.choice(["int", "str", "permint"]),
                            positive=rng.random() < .8)
         n = len(case["nodes"])
         kind = rng.choice(["single", "single", "multi", "parent_child"])
@@ -99,6 +99,7 @@ def gen_query(rng, tier):
         case["algo"] = rng.choice(["ve", "ve", "bp"])
         case["kind"] = kind
         case["use_sets"] = rng.random() < .4 and kind == "single"
+        case["warm"] = rng.random() < .3
         return case
     return None
 
@@ -129,7 +130,7 @@ def run_query(case, drv):
     bn = gen.bn_to_pgmpy(case)
     ci = CausalInference(bn)
     do = {pn[x]: gen.lab(labels[x][s]) for x, s in case["X"]}
-    tags = dict(kind=case["kind"], algo=case["algo"], nX=len(X))
+    tags = dict(kind=case["kind"], algo=case["algo"], nX=len(X), warm=bool(case.get("warm")))
     sets = [None]
     if case["use_sets"] and len(case["Y"]) == 1:
         try:
@@ -137,6 +138,13 @@ def run_query(case, drv):
             sets = [set(s) for s in got] if got else [set()]
         except ValueError:
             sets = [None]
+    if case.get("warm"):
+        # the same engine has already answered a query with the same variables and OTHER intervention states: no answer may be reused
+        try:
+            other = {pn[x]: gen.lab(labels[x][(s + 1) % card[x]]) for x, s in case["X"]}
+            ci.query([pn[v] for v in case["Y"]], do=other, inference_algo=case["algo"], show_progress=False)
+        except Exception:
+            pass
     for adj in sets:
         if adj is not None:
             # positivity for this set
